@@ -143,6 +143,23 @@ Theorem Gen_tail_order : tail_order_b = true.
 Proof. exact gen_tail_order. Qed.
 Print Assumptions Gen_tail_order.
 
+(* EVERY "<domain>/<name>" string constant / literal of non-test code under api/ and kyaml/ — whatever its family and
+   whether or not the build path uses it — is classified: an apiVersion, a key of a kustomize-owned family (then it is
+   one of the strings Gen_every_written_is_stripped ranges over), or a key of a listed foreign family; and no key is
+   concatenated at run time from a kustomize annotation domain *)
+Theorem Gen_qualified_classified : qualified_classified_b = true.
+Proof. exact gen_qualified_classified. Qed.
+Print Assumptions Gen_qualified_classified.
+
+(* every annotation WRITE SITE of api/ and kyaml/ — yaml.SetAnnotation(k, _), m[k] = _ on an annotation map that is
+   later stored with SetAnnotations, map literals given as Annotations, and calls of helpers that forward a parameter
+   as the key (appendCsvAnnotation, enable, AnnotateAll, injectAnnotation, copyAnnotations ...: fixpoint over the call
+   graph) — writes a constant key that krusty.Run removes (or that is allow-listed / not kustomize's), or is one of
+   the reviewed sites that only copy existing or user-supplied keys (Res/Hygiene.v dynamic_write_ok) *)
+Theorem Gen_write_sites_covered : write_sites_covered_b = true.
+Proof. exact gen_write_sites_covered. Qed.
+Print Assumptions Gen_write_sites_covered.
+
 Theorem Gen_requested_survive : requested_survive_b = true.
 Proof. exact gen_requested_survive. Qed.
 Print Assumptions Gen_requested_survive.
